@@ -73,6 +73,12 @@ class PhaseMonitor(Monitor):
                 if name == "add":
                     pulse = ev.args[0] if ev.args else ev.kwargs["pulse"]
                     req_phase, req_pps = float(pulse.phase), float(pulse.post_phase_shift)
+                    # (what the history asked for, not what the Pulse object says it carries)
+                    spec = op.get("pulse", {})
+                    if isinstance(spec.get("pps", 0.0), (int, float)):
+                        req_pps = float(spec.get("pps", 0.0))
+                    if spec.get("kind") != "arbphase" and isinstance(spec.get("phase"), (int, float)):
+                        req_phase = float(spec["phase"]) % TWO_PI
                 elif name == "add_eom_pulse":
                     req_phase = float(ev.args[2] if len(ev.args) > 2 else ev.kwargs["phase"]) % TWO_PI
                     req_pps = float(ev.kwargs.get("post_phase_shift", 0.0)) % TWO_PI
